@@ -18,12 +18,14 @@ THEOREMS = [
     'PbBss.C19.input_sxr_decomp_avg_channels',
     'PbBss.C19.input_sxr_single_source',
     'PbBss.C19.input_sxr_sdr_le_avg_sources',
+    'PbBss.C19.input_sxr_sdr_le_avg_both',
     'PbBss.C19.input_sxr_common_scale',
     'PbBss.C19.input_sxr_image_scale',
     'PbBss.C19.output_sxr_selection_max',
     'PbBss.C19.output_sxr_selection_first_max',
     'PbBss.C19.output_sxr_too_few_outputs',
     'PbBss.C19.output_sxr_decomp',
+    'PbBss.C19.output_sxr_sdr_le_avg',
     'PbBss.C19.output_sxr_common_scale',
     'PbBss.C19.output_sxr_image_scale',
     'PbBss.C19.output_sxr_image_scale_avg',
